@@ -272,7 +272,7 @@ func runC02(c *Ctx) {
 		}
 		jj := *j
 		w := Witness{Fingerprint: fp, What: what, Engine: "session", Job: &jj,
-			Input: jsonRaw(map[string]string{"Text": m.text, "Mode": m.mode, "Meta": m.ms.name, "Delivery": m.delivery}),
+			Input:    jsonRaw(map[string]string{"Text": m.text, "Mode": m.mode, "Meta": m.ms.name, "Delivery": m.delivery}),
 			Expected: fmt.Sprintf("%q", m.text), Observed: fmt.Sprintf("%q err=%q outcome=%s", LastCall(t).Line, LastCall(t).Err, LastCall(t).Outcome)}
 		c.Violate(w, func() string {
 			t2 := c.Pool.RunOne(&jj)
